@@ -1086,6 +1086,10 @@ func (m *Manager) isValidSignedData(signedData *types.SignedData) bool {
 	if !bytes.Equal(signedData.Signer.Address, m.genesis.ProposerAddress) {
 		return false
 	}
+	// the claimed address must be the address of the key the signature is checked with
+	if signedData.Signer.PubKey == nil || !bytes.Equal(signedData.Signer.Address, types.KeyAddress(signedData.Signer.PubKey)) {
+		return false
+	}
 	dataBytes, err := signedData.Data.MarshalBinary()
 	if err != nil {
 		return false
